@@ -22,6 +22,7 @@ from ..flow import Flow
 from ..norm import NotAlgebraic, Poly, py_poly
 from ..report import where_of
 from ..source import AnalysisError, dotted_name, enclosing_func, enclosing_stmt, is_ancestor
+from ..source import clone as _clone
 
 
 def strip_sign(e):
@@ -158,6 +159,57 @@ def _grouping_obligation(ctx, chk, dm, dflow, tab, which):
                req, key="disambiguate_matching|%s-groups" % which, why=why + "; with groupby over an unsorted sequence a storm whose pairs are not adjacent keeps only its last run of pairs")
         return
     chk.indeterminate("C02.O7", where, "the groups %s of the %s table are not a dictionary of lists or a groupby" % (ast.unparse(it)[:50], which))
+
+
+def _interval_expr(dm, e, whole):
+    """e with every use of a whole interval X (X[0], X[1], f(X) for a local f that unpacks its argument) rewritten over
+    the two names whole[X] = (start name, stop name); None if some use is not read."""
+    bad = []
+
+    def local_def(name):
+        for d_ in ast.walk(dm.node):
+            if isinstance(d_, ast.FunctionDef) and d_ is not dm.node and d_.name == name and len(d_.args.args) == 1 and not d_.args.defaults:
+                return d_
+        return None
+
+    class T(ast.NodeTransformer):
+        def visit_Subscript(self, n):
+            if isinstance(n.value, ast.Name) and n.value.id in whole and isinstance(n.slice, ast.Constant) and n.slice.value in (0, 1, -1, -2):
+                return ast.Name(id=whole[n.value.id][n.slice.value % 2], ctx=ast.Load())
+            return self.generic_visit(n)
+
+        def visit_Call(self, n):
+            if isinstance(n.func, ast.Name) and len(n.args) == 1 and not n.keywords and isinstance(n.args[0], ast.Name) and n.args[0].id in whole:
+                d_ = local_def(n.func.id)
+                if d_ is not None:
+                    stmts = [b_ for b_ in d_.body if not (isinstance(b_, ast.Expr) and isinstance(b_.value, ast.Constant))]
+                    par = d_.args.args[0].arg
+                    ends = whole[n.args[0].id]
+                    if len(stmts) == 2 and isinstance(stmts[0], ast.Assign) and isinstance(stmts[0].targets[0], (ast.Tuple, ast.List)) \
+                            and len(stmts[0].targets[0].elts) == 2 and all(isinstance(x, ast.Name) for x in stmts[0].targets[0].elts) \
+                            and isinstance(stmts[0].value, ast.Name) and stmts[0].value.id == par and isinstance(stmts[1], ast.Return) and stmts[1].value is not None:
+                        ren = {stmts[0].targets[0].elts[0].id: ends[0], stmts[0].targets[0].elts[1].id: ends[1]}
+                        body = _clone(stmts[1].value)
+                        for x in ast.walk(body):
+                            if isinstance(x, ast.Name) and x.id in ren:
+                                x.id = ren[x.id]
+                        return body
+                    if len(stmts) == 1 and isinstance(stmts[0], ast.Return) and stmts[0].value is not None:
+                        body = _clone(stmts[0].value)
+                        inner_whole = {par: ends}
+                        sub = _interval_expr(dm, body, inner_whole)
+                        if sub is not None:
+                            return sub
+                bad.append(n)
+                return n
+            return self.generic_visit(n)
+
+        def visit_Name(self, n):
+            if n.id in whole:
+                bad.append(n)
+            return n
+    out = T().visit(_clone(e))
+    return None if bad else ast.fix_missing_locations(out)
 
 
 def run(ctx, chk, tier="quick"):
@@ -305,6 +357,22 @@ def run(ctx, chk, tier="quick"):
                 tnames = [tuple(e.id for e in t.elts) if isinstance(t, ast.Tuple) and len(t.elts) == 2 else None for t in g.target.elts]
                 if None not in tnames:
                     dur_names = dict(zip(srcs, tnames))
+            elif isinstance(g.iter, ast.Call) and isinstance(g.iter.func, ast.Name) and g.iter.func.id == "zip" \
+                    and isinstance(g.target, ast.Tuple) and len(g.target.elts) == len(g.iter.args) and all(isinstance(a, ast.Name) for a in g.iter.args):
+                # for match, rain_interval, jump_interval in zip(matches, rain_intervals, jump_intervals): an interval held whole;
+                # its ends are X[0] / X[1], or what a local one-argument function unpacks
+                whole, names_ = {}, {}
+                for t_, a_ in zip(g.target.elts, g.iter.args):
+                    if a_.id in (rain_p, jump_p):
+                        if isinstance(t_, ast.Name):
+                            whole[t_.id] = ("_%s_start" % t_.id, "_%s_stop" % t_.id)
+                            names_[a_.id] = whole[t_.id]
+                        elif isinstance(t_, ast.Tuple) and len(t_.elts) == 2 and all(isinstance(e_, ast.Name) for e_ in t_.elts):
+                            names_[a_.id] = tuple(e_.id for e_ in t_.elts)
+                if rain_p in names_ and jump_p in names_:
+                    ex_ = _interval_expr(dm, dur_expr, whole)
+                    if ex_ is not None:
+                        dur_expr, dur_names = ex_, names_
             # key order of the dict: (storm start, jump start)
             dkey = ddef.key
     else:
